@@ -8,7 +8,8 @@ import subprocess
 import sys
 
 seed, n, checks = sys.argv[1], sys.argv[2], sys.argv[3:]
-src = seed if os.path.exists(os.path.join(seed, f"change{n}.diff")) else os.path.join(seed, "out")
+seed = os.path.abspath(seed)
+src = seed if (os.path.exists(os.path.join(seed, f"change{n}.diff")) or os.path.exists(os.path.join(seed, "patch.diff"))) else os.path.join(seed, "out")
 diff, demo = os.path.join(src, f"change{n}.diff"), os.path.join(src, f"demo{n}.py")
 if not os.path.exists(diff):
     diff, demo = os.path.join(src, "patch.diff"), os.path.join(src, "demo.py")
